@@ -255,7 +255,11 @@ def run_case(case, rec):
         return a
 
     try:
-        total, terms = guard.call(jax.jit(lambda l, p, b: l.evaluate(p, b)), loss, params, batch)
+        if case["seed"] % 6 == 0:
+            rec.count("eager_evaluations")
+            total, terms = guard.call(loss.evaluate, params, batch)
+        else:
+            total, terms = guard.call(jax.jit(lambda l, p, b: l.evaluate(p, b)), loss, params, batch)
     except guard.Crash as c:
         at = sig_attrs()
         ntp = len(np.unique(border[:, 0, 0])) if kind == "nonstatio" else 0
